@@ -169,6 +169,27 @@ def _layer():
     return Layer(None, LayerRecord(), None, None)
 
 
+def impl_ctor(l, how):
+    """record state built by Group.new(name) / PixelLayer.frompil(.., name): [0, len legacy, legacy..., 1, luni...] | [0,..,0]"""
+    from PIL import Image
+    from psd_tools import PSDImage
+    from psd_tools.api.layers import Group, PixelLayer
+    from psd_tools.constants import Tag
+
+    try:
+        with warnings.catch_warnings():
+            warnings.simplefilter("ignore")
+            if how == "group_new":
+                lay = Group.new(S(l))
+            else:
+                lay = PixelLayer.frompil(Image.new("RGB", (1, 1)), PSDImage.new("RGB", (1, 1)), S(l))
+        rec = lay._record
+        luni = rec.tagged_blocks.get_data(Tag.UNICODE_LAYER_NAME)
+        return [0, len(rec.name)] + cps(rec.name) + ([0] if luni is None else [1] + cps(luni))
+    except Exception as e:
+        return [exc_code(e)]
+
+
 def extra_prefix():
     """bytes LayerRecord._write_extra emits before the name for a default record (mask data, blending ranges)"""
     from psd_tools.psd.layer_and_mask import LayerBlendingRanges
@@ -404,26 +425,9 @@ def _w_c19_2():
     return impl_read_pascal(impl_write_pascal([0xA5], "shift_jis", 2)[2:], "shift_jis", 2)[2:] != [0xA5]
 
 
-def _cls_c19_3(fl):
-    """a layer created (Group.new / PixelLayer.frompil) with a name mac_roman cannot express cannot be saved:
-    the constructors lack the '?' fallback of the setter"""
-    i = fl["input"]
-    return (fl["kind"] == "doc-name-raises" and i["how"] in ("group_new", "frompil")
-            and py_enc(i["string"], "macroman") is None and not expressible(i["string"], i["encoding"])
-            and fl["observed"] in ("UnicodeEncodeError", "error"))
-
-
-def _w_c19_3():
-    try:
-        _doc_paths()("group_new", "\u0416", "macroman")
-        return False
-    except UnicodeEncodeError:
-        return True
-
-
 def _cls_c19_4(fl):
-    """the legacy field holds a mac_roman-expressible name (the '?' fallback is decided with mac_roman, or - for the
-    constructors - not at all), and the document is saved with another encoding in which that field cannot be written"""
+    """the legacy field holds a mac_roman-expressible name (setter and constructors decide the '?' fallback with
+    mac_roman), and the document is saved with another encoding in which that field cannot be written"""
     i = fl["input"]
     return (fl["kind"] == "doc-name-raises" and i["encoding"] != "macroman"
             and py_enc(i["string"], "macroman") is not None and not expressible(i["string"], i["encoding"])
@@ -440,8 +444,6 @@ def _w_c19_4():
 
 core.KNOWN_CLASSIFIERS["F-C19-2"] = _cls_c19_2
 core.KNOWN_WITNESS["F-C19-2"] = _w_c19_2
-core.KNOWN_CLASSIFIERS["F-C19-3"] = _cls_c19_3
-core.KNOWN_WITNESS["F-C19-3"] = _w_c19_3
 core.KNOWN_CLASSIFIERS["F-C19-4"] = _cls_c19_4
 core.KNOWN_WITNESS["F-C19-4"] = _w_c19_4
 
@@ -510,11 +512,9 @@ def oracle_sites(ck, strings, sites):
                 ck.fail("site-unicode-roundtrip" if kind == "u" else "site-pascal-roundtrip", inp, cps(got) if isinstance(got, str) else repr(got), l)
 
 
-def legacy_field(l, how):
-    """what the path puts into the legacy pascal field of the record"""
-    if how in ("setter", "group_renamed"):
-        return l if py_enc(l, "macroman") is not None else [63]
-    return l
+def legacy_field(l, how=None):
+    """what every path (setter, Group.new, PixelLayer.frompil - since cc4d99c) puts into the legacy pascal field"""
+    return l if py_enc(l, "macroman") is not None else [63]
 
 
 def expressible(field, enc):
@@ -537,13 +537,10 @@ def oracle_docs(ck, strings, encodings, hows):
                     ck.fail("doc-name-raises", inp, type(e).__name__, "the name")
                     continue
                 ck.count("doc-ok")
-                if how == "frompil" and got != S(l):
-                    # frompil stores only the legacy field: the name comes back through the charset codec
-                    ck.fail("doc-legacy-name", inp, cps(got), l)
-                elif how != "frompil" and got != S(l):
+                if got != S(l):
                     ck.fail("doc-name-roundtrip", inp, cps(got), l)
-                if how in ("setter", "group_renamed") and cps(rec) != legacy_field(l, how) and not any(c in noninjective(enc) for c in l):
-                    ck.fail("doc-legacy-field", inp, cps(rec), legacy_field(l, how))
+                if cps(rec) != legacy_field(l) and not any(c in noninjective(enc) for c in l):
+                    ck.fail("doc-legacy-field", inp, cps(rec), legacy_field(l))
 
 
 # ------------------------------------------------------------------ the run
@@ -758,6 +755,19 @@ def run():
             if is_scalar(l) and r != [0] + l:
                 inp = dict(inp, site="Layer.name -> LayerRecord._write_extra -> _read_extra")
                 ck.fail("name-record-roundtrip", inp, r, [0] + l)
+    ccases = []
+    for d in nstrs:
+        l = sd_list(d)
+        outs = {how: impl_ctor(l, how) for how in ("group_new", "frompil")}
+        if outs["group_new"] != outs["frompil"]:
+            ck.obligations.append(("ctor:group_new-vs-frompil", False, repr((l[:8], outs["group_new"][:12], outs["frompil"][:12]))))
+        ccases.append((d, [h63_list(0, outs["group_new"])]))
+        if is_scalar(l) and len(l) < 256:
+            exp = [0, len(legacy_field(l))] + legacy_field(l) + [1] + l
+            for how, o in outs.items():
+                if o != exp:
+                    ck.fail("ctor-name", {"string": l, "how": how, "encoding": "macroman", "site": "layer name: %s record state" % how}, o[:40], exp[:40])
+    ck.correspond("ctor_name", "ctor_case", IMPORTS, ccases, sd_lit, chunk=1500)
     ck.correspond("name_write", "name_write", IMPORTS, ncases, lambda a: "(%s, %d, %s)" % (sd_lit(a[0]), a[1], opt_lit(a[2])), chunk=1500)
     bad = ck.correspond("name_read", "name_read", IMPORTS, nrcases, lambda a: "(%s, %s, %s)" % (zlist(a[0]), zlist(a[1]), opt_lit(a[2])), chunk=2500)
     for i in bad[:3]:
